@@ -7,9 +7,6 @@ namespace Holpy.C07
 
 variable {S : List (List Nat)} {C : TySyms}
 
-theorem follow_rp (r : List Nat) : Follow (41 :: r) := Or.inr ⟨r, Or.inr (Or.inl rfl)⟩
-theorem follow_comma (r : List Nat) : Follow (44 :: r) := Or.inr ⟨r, Or.inr (Or.inr rfl)⟩
-
 /-- what may follow a type symbol: a blank, or (if checked) an identifier -/
 def AfterTySym (bi : Bool) (rest : List Nat) : Prop :=
   (∃ r, rest = 32 :: r) ∨ (bi = true ∧ ∃ c r, rest = c :: r ∧ isIdStart c = true)
@@ -63,7 +60,7 @@ theorem lp_steps (hlp : S.contains [40] = true) (hlpOnly : ∀ t ∈ S, [40].isP
   omega
 
 theorem rp_steps (hrp : S.contains [41] = true)
-    (hsafeR : ∀ t ∈ S, [41].isPrefixOf t = true → t = [41] ∨ (t.drop 1).headD 0 ≠ 32 ∧ (t.drop 1).headD 0 ≠ 41 ∧ (t.drop 1).headD 0 ≠ 44) :
+    (hsafeR : ∀ t ∈ S, [41].isPrefixOf t = true → t = [41] ∨ isWs ((t.drop 1).headD 0) = false ∧ (t.drop 1).headD 0 ≠ 41 ∧ (t.drop 1).headD 0 ≠ 44) :
     Steps S [41] [.rp] Follow := by
   have := steps_symbol (S := S) (w := [41]) (by decide) hrp
   have h' : Steps S [41] [.rp] (SafeAfter S [41]) := by simpa [tokOfTerminal] using this
@@ -72,7 +69,7 @@ theorem rp_steps (hrp : S.contains [41] = true)
 /-- a bracketed or unbracketed argument type -/
 theorem lex_wrap_ty (hlp : S.contains [40] = true) (hrp : S.contains [41] = true)
     (hlpOnly : ∀ t ∈ S, [40].isPrefixOf t = true → t = [40])
-    (hsafeR : ∀ t ∈ S, [41].isPrefixOf t = true → t = [41] ∨ (t.drop 1).headD 0 ≠ 32 ∧ (t.drop 1).headD 0 ≠ 41 ∧ (t.drop 1).headD 0 ≠ 44)
+    (hsafeR : ∀ t ∈ S, [41].isPrefixOf t = true → t = [41] ∨ isWs ((t.drop 1).headD 0) = false ∧ (t.drop 1).headD 0 ≠ 41 ∧ (t.drop 1).headD 0 ≠ 44)
     {txt : List Nat} {toks : List Tok} (ht : Steps S txt toks Follow) (b : Bool) :
     Steps S (wrapT b txt) (wrap b toks) Follow := by
   cases b with
